@@ -101,3 +101,85 @@ package merkleblock
 //@   loop 3 decreases len(m.bits) - int(i)
 //@   assert after traverseAndBuild#1: $arg1 == height && $arg2 == 0
 //@   assert after AddTxHash#1: $arg1 == m.finalHashes[$i2]
+
+//@ func merkleblock.TxInSet
+//@   requires tx != nil && forall k :: 0 <= k && k < len(set) ==> set[k] != nil
+//@   ensures result ==> exists k :: 0 <= k && k < len(set) && hash.eq(tx, set[k])
+//@   ensures !result ==> forall k :: 0 <= k && k < len(set) ==> !hash.eq(tx, set[k])
+//@   modifies nothing
+//@   loop 1 invariant forall k :: 0 <= k && k < $i ==> !hash.eq(tx, set[k])
+
+//@ func merkleblock.NewMerkleBlockWithFilter
+//@   requires block != nil && filter != nil && !held(filter.mtx) && block.msgBlock != nil
+//@   requires block.blockHash != nil && filter.msgFilterLoad != nil ==> !sameobj(block.blockHash, filter.msgFilterLoad.Filter)
+//@   requires len(block.msgBlock.Transactions) >= 1 && len(block.msgBlock.Transactions) <= 1073741824
+//@   requires filter.msgFilterLoad != nil ==> len(filter.msgFilterLoad.Filter) <= 36000
+//@   requires len(block.transactions) == 0 || len(block.transactions) == len(block.msgBlock.Transactions)
+//@   requires forall k :: 0 <= k && k < len(block.transactions) ==> (block.transactions[k] != nil ==> block.transactions[k].msgTx == block.msgBlock.Transactions[k] && block.transactions[k].txIndex == k)
+//@   requires block.txnsGenerated ==> len(block.transactions) == len(block.msgBlock.Transactions) && forall k :: 0 <= k && k < len(block.transactions) ==> block.transactions[k] != nil
+//@   requires block.blockHash != nil ==> forall k :: 0 <= k && k < 32 ==> block.blockHash[k] == wire.bh(block.msgBlock.ref, block.msgBlock.off, k)
+//@   requires forall k :: 0 <= k && k < len(block.msgBlock.Transactions) ==> block.msgBlock.Transactions[k] != nil
+//@   requires forall k :: 0 <= k && k < len(block.msgBlock.Transactions) ==> (forall j :: 0 <= j && j < len(block.msgBlock.Transactions[k].TxOut) ==> block.msgBlock.Transactions[k].TxOut[j] != nil) && (forall j :: 0 <= j && j < len(block.msgBlock.Transactions[k].TxIn) ==> block.msgBlock.Transactions[k].TxIn[j] != nil)
+//@   ensures result0 != nil && fresh(result0) && int(result0.Transactions) == len(block.msgBlock.Transactions)
+//@   ensures $calls_GetMatchedIndices == 1 && $calls_calcBlock == 1 && $calls_MatchTxAndUpdate == 0 && result0 == $ret_calcBlock#1
+//@   ensures len(result1) <= len(block.msgBlock.Transactions)
+//@   loop 1 invariant len(mBlock.matchedBits) == $i && len(mBlock.allHashes) == $i && int(mBlock.numTx) == len(block.msgBlock.Transactions) && numTx == mBlock.numTx
+//@   loop 1 invariant cap(mBlock.matchedBits) == int(numTx) && cap(mBlock.allHashes) == int(numTx) && fresh(mBlock.matchedBits) && fresh(mBlock.allHashes) && len(mBlock.bits) == 0 && cap(mBlock.bits) == 0 && len(mBlock.finalHashes) == 0 && cap(mBlock.finalHashes) == 0
+//@   loop 1 invariant len($ret_Transactions#2) == len(block.msgBlock.Transactions) && block.msgBlock == old(block.msgBlock)
+//@   loop 1 invariant forall k :: 0 <= k && k < len($ret_Transactions#2) ==> $ret_Transactions#2[k] != nil && $ret_Transactions#2[k].msgTx == block.msgBlock.Transactions[k]
+//@   loop 1 invariant forall k :: 0 <= k && k < len(block.msgBlock.Transactions) ==> block.msgBlock.Transactions[k] != nil
+//@   loop 1 invariant forall k :: 0 <= k && k < $i ==> mBlock.allHashes[k] != nil
+//@   loop 1 invariant $calls_GetMatchedIndices == 1 && $calls_Hash == $i && $calls_MatchTxAndUpdate == 0
+//@   loop 1 invariant len(block.msgBlock.Transactions) <= 1073741824
+//@   loop 1 invariant len(matchedIndices) <= $i
+//@   assert after GetMatchedIndices#1: $arg0 == block && $arg1 == filter
+//@   assert after Hash#1: $arg0 == $ret_Transactions#2[$i1]
+//@   assert after calcBlock#1: $arg1 == block
+//@   assert after append#1: $ret[len($ret) - 1] == 1
+//@   assert after append#2: $ret[len($ret) - 1] == u32($i1)
+//@   assert after append#4: $ret[len($ret) - 1] == 0
+//@   assert after append#3: $ret[len($ret) - 1] == $ret_Hash#1
+
+//@ func merkleblock.NewMerkleBlockWithTxnSet
+//@   requires block != nil && block.msgBlock != nil
+//@   requires forall k :: 0 <= k && k < len(txnSet) ==> txnSet[k] != nil
+//@   requires len(block.msgBlock.Transactions) >= 1 && len(block.msgBlock.Transactions) <= 1073741824
+//@   requires len(block.transactions) == 0 || len(block.transactions) == len(block.msgBlock.Transactions)
+//@   requires forall k :: 0 <= k && k < len(block.transactions) ==> (block.transactions[k] != nil ==> block.transactions[k].msgTx == block.msgBlock.Transactions[k] && block.transactions[k].txIndex == k)
+//@   requires block.txnsGenerated ==> len(block.transactions) == len(block.msgBlock.Transactions) && forall k :: 0 <= k && k < len(block.transactions) ==> block.transactions[k] != nil
+//@   requires block.blockHash != nil ==> forall k :: 0 <= k && k < 32 ==> block.blockHash[k] == wire.bh(block.msgBlock.ref, block.msgBlock.off, k)
+//@   requires forall k :: 0 <= k && k < len(block.msgBlock.Transactions) ==> block.msgBlock.Transactions[k] != nil
+//@   requires forall k :: 0 <= k && k < len(block.msgBlock.Transactions) ==> (forall j :: 0 <= j && j < len(block.msgBlock.Transactions[k].TxOut) ==> block.msgBlock.Transactions[k].TxOut[j] != nil) && (forall j :: 0 <= j && j < len(block.msgBlock.Transactions[k].TxIn) ==> block.msgBlock.Transactions[k].TxIn[j] != nil)
+//@   ensures result0 != nil && fresh(result0) && int(result0.Transactions) == len(block.msgBlock.Transactions)
+//@   ensures $calls_calcBlock == 1 && $calls_TxInSet == len(block.msgBlock.Transactions) && result0 == $ret_calcBlock#1
+//@   ensures len(result1) <= len(block.msgBlock.Transactions)
+//@   loop 1 invariant len(mBlock.matchedBits) == $i && len(mBlock.allHashes) == $i && int(mBlock.numTx) == len(block.msgBlock.Transactions) && numTx == mBlock.numTx
+//@   loop 1 invariant cap(mBlock.matchedBits) == int(numTx) && cap(mBlock.allHashes) == int(numTx) && fresh(mBlock.matchedBits) && fresh(mBlock.allHashes) && len(mBlock.bits) == 0 && cap(mBlock.bits) == 0 && len(mBlock.finalHashes) == 0 && cap(mBlock.finalHashes) == 0
+//@   loop 1 invariant len($ret_Transactions#2) == len(block.msgBlock.Transactions) && block.msgBlock == old(block.msgBlock)
+//@   loop 1 invariant forall k :: 0 <= k && k < len($ret_Transactions#2) ==> $ret_Transactions#2[k] != nil && $ret_Transactions#2[k].msgTx == block.msgBlock.Transactions[k]
+//@   loop 1 invariant forall k :: 0 <= k && k < len(block.msgBlock.Transactions) ==> block.msgBlock.Transactions[k] != nil
+//@   loop 1 invariant forall k :: 0 <= k && k < $i ==> mBlock.allHashes[k] != nil
+//@   loop 1 invariant $calls_TxInSet == $i
+//@   loop 1 invariant len(block.msgBlock.Transactions) <= 1073741824
+//@   loop 1 invariant len(matchedIndices) <= $i
+//@   loop 1 invariant forall k :: 0 <= k && k < len(txnSet) ==> txnSet[k] != nil
+//@   assert after Hash#1: $arg0 == $ret_Transactions#2[$i1]
+//@   assert after Hash#2: $arg0 == $ret_Transactions#2[$i1]
+//@   assert after TxInSet#1: $arg0 == $ret_Hash#1 && sameobj($arg1, txnSet) && len($arg1) == len(txnSet) && $arg1.off == txnSet.off
+//@   assert after append#1: $ret_TxInSet#1 && $ret[len($ret) - 1] == 1
+//@   assert after append#2: $ret[len($ret) - 1] == u32($i1)
+//@   assert after append#4: !$ret_TxInSet#1 && $ret[len($ret) - 1] == 0
+//@   assert after append#3: $ret[len($ret) - 1] == $ret_Hash#2
+//@   assert after calcBlock#1: $arg1 == block
+
+//@ func merkleblock.(*PartialBlock).GetMatches
+//@   ensures sameobj(result, m.matchedHashes) && len(result) == len(m.matchedHashes) && result.off == m.matchedHashes.off
+//@   modifies nothing
+
+//@ func merkleblock.(*PartialBlock).GetItems
+//@   ensures sameobj(result, m.matchedItems) && len(result) == len(m.matchedItems) && result.off == m.matchedItems.off
+//@   modifies nothing
+
+//@ func merkleblock.(*PartialBlock).BadTree
+//@   ensures result == m.bad
+//@   modifies nothing
